@@ -186,6 +186,13 @@ def call_fr(al, f, cont, ms, keyword=False):
     """Call freq_response on a container of the given kind; returns (type name, list of values) or error text."""
     ws = [freq_value(m) for m in ms]
     try:
+        # the filter object has answered another question before (a response is a function of the frequency asked,
+        # not of what was asked earlier)
+        f.freq_response(0.3125)
+        list(f.freq_response([0.0, 1.0]))
+    except Exception:                            # noqa: the judged call below is what counts
+        pass
+    try:
         if cont == "scalar":
             w = freq_value(ms[0], as_int_zero=keyword)
             res = f.freq_response(freq=w) if keyword else f.freq_response(w)
